@@ -520,6 +520,46 @@ def handle (a : Args) : String :=
     let mL : Int → Int := fun ad => lmem.getD ad.toNat 0
     let r := labeledFoldView (fun (x r : Int) => x + r) 0 (a.nat "maxlabel") mA vA mL vL
     s!"sum={showInts r.toList}"
+  | "kview" =>
+    -- a kernel over views: `amem/abase/ashape/astrides/acarray` the array, `b…` the filter (structuring element,
+    -- weights, template), `m…` the markers (cwatershed); memories are integer lists indexed by address
+    let mk := fun (pre : String) =>
+      let mem := (a.ints (pre ++ "mem")).toArray
+      let v : View := { base := a.int (pre ++ "base"), shape := a.nats (pre ++ "shape"),
+                        strides := a.ints (pre ++ "strides"), carray := a.nat (pre ++ "carray") == 1 }
+      ((fun (ad : Int) => if ad < 0 then (0 : Int) else mem.getD ad.toNat 0), v)
+    let (mA, vA) := mk "a"
+    let (mB, vB) := mk "b"
+    let dt := DT.ofName (a.str "dt")
+    let m := (Mode.ofCode (a.nat "mode")).getD .nearest
+    let ob := fun (r : Array (Option Bool)) => showOptInts (r.toList.map fun o => o.map fun b => if b then (1 : Int) else 0)
+    match a.str "kernel" with
+    | "erode" => s!"out={showOptInts (erodeView dt mA vA mB vB).toList}"
+    | "dilate" => s!"out={showOptInts (dilateView dt mA vA mB vB).toList}"
+    | "locmax" => s!"out={ob (locView false mA vA mB vB)}"
+    | "locmin" => s!"out={ob (locView true mA vA mB vB)}"
+    | "convolve" => s!"out={showOptInts (convolveView 0 (fun x => x == 0) id m mA vA mB vB).toList}"
+    | "rank" => s!"out={showOptInts (rankView m (a.int "rank") mA vA mB vB).toList}"
+    | "mean" =>
+      let r := (meanView m mA vA mB vB).toList
+      s!"sum={showOptInts (r.map fun o => o.map (·.1))} n={showOptInts (r.map fun o => o.map fun x => (x.2 : Int))}"
+    | "tm" => s!"out={showOptInts (tmView m mA vA mB vB).toList}"
+    | "borders" => s!"out={ob (bordersView m mA vA mB vB)}"
+    | "hitmiss" => s!"out={showOptInts (hitmissView mA vA mB vB).toList}"
+    | "bbox" => s!"out={showInts (bboxView mA vA)}"
+    | "com" =>
+      let ops : C13.NumOps Int := { zero := 0, add := (· + ·), mul := (· * ·), div := fun x _ => x, ofNat := Int.ofNat }
+      -- numerators and totals are exact integers; the division is left to the harness
+      let vals := (List.range (shapeSize vA.shape)).map (readIter mA vA)
+      let tot := vals.foldl (· + ·) 0
+      s!"num={showInts (comView ops mA vA [])} tot={tot}"
+    | "cwatershed" =>
+      let (mM, vM) := mk "m"
+      let r := cwatershedView mA vA mM vM mB vB
+      s!"out={showInts r.res.toList} lines={showBools r.lines.toList}"
+    | "line" =>
+      s!"out={showInts (lineVals mA vA (a.nat "axis") (a.nats "p"))}"
+    | k => s!"error=unknown-kernel-{k}"
   | "norm" =>
     match Norm.ofString (a.str "norm") with
     | none => "error=unknown-norm"
